@@ -83,7 +83,13 @@ class Set(Container):
 
     def __str__(self) -> str:
         try:
-            return "{%s}" % ", ".join(map(str, self._value))  # This is recursive.
+            # The elements are sorted so that equal sets always have the same textual form (e.g., in @print output),
+            # regardless of the hash seed and of the order in which the elements were inserted.
+            try:
+                elements = sorted(self._value, key=lambda x: x.native_value)
+            except (AttributeError, TypeError):  # Elements that are not primitives have no natural ordering.
+                elements = sorted(self._value, key=str)
+            return "{%s}" % ", ".join(map(str, elements))  # This is recursive.
         except (AttributeError, TypeError):  # pragma: no cover
             return "Set(UNINITIALIZED)"
 
